@@ -124,4 +124,12 @@ LRuleOneSubject == Which \in {"lrule", "lchain"} => (Cardinality(st.rule.subs) <
 RejectedUnchanged == [][Last(hist').out = "error" => st' = st]_vars
 
 EmitHist == EMIT => PrintT("HIST " \o ToJson([which |-> Which, hist |-> hist]))
+
+\* Closure of the automaton (DESIGN 13.3, round 5): with VIEW ClosureView two histories that lead to the same automaton
+\* state are ONE state for TLC, so the search ends when every reachable automaton state has been found - whatever the
+\* length of the history that leads there - and the invariants over `st` hold for call histories of ANY length over the
+\* vocabulary.  BFS keeps a shortest history per automaton state; the harness replays it followed by every call of
+\* the vocabulary (one test per transition of the complete automaton).
+ClosureView == st
+EmitClosure == EMIT => PrintT("CLOS " \o ToJson([which |-> Which, hist |-> hist, calls |-> SetToSeq(Calls(st))]))
 =============================================================================
